@@ -1,4 +1,6 @@
 import Dashu.Proofs.Text.FloatParse
+import Dashu.Proofs.Text.FloatGrammar
+import Dashu.Proofs.Text.FloatPrec
 /-
   C08 — Float text I/O is lossless; base/precision changes are faithfully rounded.   **partial**
 
@@ -9,19 +11,22 @@ import Dashu.Proofs.Text.FloatParse
     representable (truthful flag), otherwise less than one ulp on the mode's side;
   * the precision `with_base` documents (`max q, NewB^q ≤ B^p`) as computed by the specification side;
   * `TryFrom<f32/f64>` is exact, with precision = bit length of the mantissa;
-  * the literal parser on the plain form of the documented grammar (`[sign] int [. frac] [@ scale]`,
-    every base 2..36, either letter case): exactly the written value, precision = number of written
-    digits; and the print → parse round trip of `Display` (no precision option): equal value.
+  * the literal parser `Repr::from_str_native` EQUALS the documented grammar (`parseFloatSpec`, an
+    independent total function) on every byte string — underscores, every scale marker
+    (`e E b B o O h H p P @`), the hexadecimal form of base 2 and every error case included; every
+    accepted string denotes exactly the number its digits spell, precision = number of written digits
+    (×4 for hexadecimal digits); the plain form `[sign] int [. frac] [@ scale]` is accepted with that value;
+  * the print → parse round trip of `Display` (no precision option): equal value;
+  * `Display` with a precision option `{:.p}`: the text is a literal with exactly `p` fractional digits
+    (no point for `p = 0`) whose value is `R · B^(−p)`, `R` the integer the rounding mode names for
+    `x · B^p` (floor / ceiling / toward / away from zero / nearest-even / nearest-away);
+  * `with_precision`: precision becomes `p`; rounding contract of C03 when digits are dropped, value
+    unchanged and `Exact` otherwise (and always for `p = 0`).
 
   Not proved (checked by the correspondence run only; see `vlib/props/c08.py` FRONTIER):
-  `from_str_native` = the literal grammar (`parseFloatSpec`) on *all* byte strings (underscores,
-  the base-specific markers `e b o h p`, the hexadecimal form and the error cases are compared at run
-  time only), `fmt_round` with a precision = `displaySpec`, the small-negative-exponent branch (division: builder-float's `reprDiv`
-  model, C03) and the large-exponent branch through `ln`/`exp` (judged per case by exact
-  arithmetic; it does *not* meet the contract — two recorded findings).
-
-  -- theorem parse_eq_grammar_full (W B s) : fromStrNative W B s = parseFloatSpec B s
-  -- theorem display_eq_spec_full   (B m plus prec r) : fmtRound B m {plus} prec r = displaySpec B m plus prec r
+  width/fill/`+` padding of `fmt_round` and the scientific formats, the small-negative-exponent branch
+  (division: builder-float's `reprDiv` model, C03) and the large-exponent branch through `ln`/`exp`
+  (judged per case by exact arithmetic; it does *not* meet the contract — two recorded findings).
 -/
 namespace Dashu.Props.C08
 open Dashu.Model.Text Dashu.Model.Float
@@ -129,6 +134,81 @@ theorem print_parse_round_trip (W : Nat) (hW : 36 < 2 ^ W) (B : Nat) (hB : valid
     ∃ (r' : FRepr) (n : Nat), fromStrNative W B (fmtRound B m {} none r) = .ok (r', n) ∧
       r'.toRat B = r.toRat B :=
   display_parse_round_trip W hW B hB m r
+
+/-- **the parser is the documented grammar** — on every byte string: all markers, the hexadecimal
+    form, underscores, and every error case (`NoDigits`, `InvalidDigit`) with the code's precedence -/
+theorem parse_eq_grammar (W : Nat) (hW : 36 < 2 ^ W) (B : Nat) (hB : validRadix B = true) (s : List Nat) :
+    fromStrNative W B s = parseFloatSpec B s :=
+  fromStrNative_eq_spec W hW B hB s
+
+/-- the grammar's digit strings: `_` separators are skipped, at least one digit is required (a
+    string of underscores only has no digits), any other byte is an invalid digit -/
+theorem grammar_digit_string (radix : Nat) (t : List Nat) (ae : Bool) :
+    chkDigits radix t ae =
+      if t = [] then (if ae then .ok [] else .error .noDigits)
+      else if t.all (· == 95) then .error .noDigits
+      else match digitValues radix (t.filter (· ≠ 95)) with
+        | some ds => .ok ds
+        | none => .error .invalidDigit := by
+  unfold chkDigits digitsOnly; rfl
+
+/-- **every accepted string denotes exactly what its digits spell**: if the parser accepts `s` then
+    there are digit lists `di`, `df` (all below the radix, not both empty), a sign and a scale such that
+    the value is `±(di ++ df)_radix · B^(scale − |df|·k)` and the precision is `(|di| + |df|)·k`, where
+    `radix = 16`, `k = 4` for the hexadecimal form (base 2 only) and `radix = B`, `k = 1` otherwise -/
+theorem parse_ok_denotes (W : Nat) (hW : 36 < 2 ^ W) (B : Nat) (hB : validRadix B = true) (s : List Nat)
+    (r : FRepr) (p : Nat) (h : fromStrNative W B s = .ok (r, p)) :
+    ∃ (neg hex : Bool) (di df : List Nat) (scale : Int), (hex = true → B = 2) ∧
+      (∀ d ∈ di ++ df, d < (if hex then 16 else B)) ∧ di ++ df ≠ [] ∧
+      p = (di.length + df.length) * (if hex then 4 else 1) ∧
+      r.toRat B = (if neg then -1 else 1) * (ofDigits (if hex then 16 else B) (di ++ df) : ℚ) *
+        bpowQ B (scale - ((df.length * (if hex then 4 else 1) : Nat) : Int)) := by
+  rw [fromStrNative_eq_spec W hW B hB] at h
+  exact spec_ok_denotes B hB s r p h
+
+/-- **`{:.p}` prints exactly `p` fractional digits**: the text is `[-] int [. frac]` with `|frac| = p`
+    (no point when `p = 0`), digits below the base, spelling `|R| · B^(−p)` -/
+theorem print_precision_text (B : Nat) (hB : 2 ≤ B) (m : Mode) (p : Nat) (r : FRepr) :
+    ∃ (di : List Nat) (frac : Option (List Nat)),
+      fmtRound B m {} (some p) r = renderLiteral false (if r.signif < 0 then some true else none) di frac none ∧
+      (∀ d ∈ di, d < B) ∧ (∀ d ∈ frac.getD [], d < B) ∧ di ≠ [] ∧
+      (frac.getD []).length = p ∧ (frac.isSome ↔ 0 < p) ∧
+      (ofDigits B (di ++ frac.getD []) : ℚ) * bpowQ B (0 - (p : Int)) =
+        ((precRounded B m p r).natAbs : ℚ) * bpowQ B (0 - (p : Int)) :=
+  display_prec_literal B hB m p r
+
+/-- **… and `R` is the value correctly rounded under the mode**: with `x · B^p = N / D`
+    (`N = signif · B^max(p+exp,0)`, `D = B^max(−(p+exp),0)`), `R` satisfies the specification of the
+    mode (`ModeSpec`: floor, ceiling, toward zero, away from zero, nearest-even, nearest-away) -/
+theorem print_precision_rounding (B : Nat) (hB : 2 ≤ B) (m : Mode) (p : Nat) (r : FRepr) :
+    Dashu.Model.Float.ModeSpec m (r.signif * ((B ^ ((p : Int) + r.exp).toNat : Nat) : Int))
+        ((B ^ (-((p : Int) + r.exp)).toNat : Nat) : Int) (precRounded B m p r) ∧
+      ((r.signif * ((B ^ ((p : Int) + r.exp).toNat : Nat) : Int) : Int) : ℚ) /
+        (((B ^ (-((p : Int) + r.exp)).toNat : Nat) : Int) : ℚ) = r.toRat B * ((B ^ p : Nat) : ℚ) :=
+  ⟨precRounded_spec B hB m p r, prec_scaled_value B hB p r⟩
+
+/-- **printing with a precision, read back**: the text of `{:.p}` parses (same base) to exactly
+    `R · B^(−p)` — the value rounded to `p` fractional digits under the mode -/
+theorem print_precision_parse (W : Nat) (hW : 36 < 2 ^ W) (B : Nat) (hB : validRadix B = true)
+    (m : Mode) (p : Nat) (r : FRepr) :
+    ∃ (r' : FRepr) (n : Nat), fromStrNative W B (fmtRound B m {} (some p) r) = .ok (r', n) ∧
+      r'.toRat B = (precRounded B m p r : ℚ) * bpowQ B (-(p : Int)) :=
+  display_prec_parse W hW B hB m p r
+
+/-- **`with_precision(p)`**, `p ≥ 1`: the precision becomes `p`; the value meets the rounding contract
+    (exact iff representable in `p` digits — in particular unchanged when the precision grows —
+    otherwise < 1 ulp, ≤ ½ ulp for the nearest modes, on the mode's side; truthful flag) -/
+theorem with_precision_contract (B : Nat) (hB : 2 ≤ B) (m : Mode) (p : Nat) (hp : 1 ≤ p) (x : FBigM)
+    (hn : Normalized B x.repr) :
+    (fWithPrecision B m coarseNone x p).1.prec = p ∧
+    Contract B m p (x.repr.toRat B) ((fWithPrecision B m coarseNone x p).1.repr.toRat B)
+      (fWithPrecision B m coarseNone x p).2 :=
+  fWithPrecision_contract B hB m p hp x hn
+
+/-- `with_precision(0)` (unlimited precision) never changes the value -/
+theorem with_precision_unlimited (B : Nat) (m : Mode) (x : FBigM) :
+    (fWithPrecision B m coarseNone x 0).1.repr = x.repr ∧ (fWithPrecision B m coarseNone x 0).2 = none :=
+  fWithPrecision_zero B m x
 
 -- non-vacuity
 example : ilogExact 16 2 = 4 ∧ ilogExact 8 2 = 3 ∧ ilogExact 10 2 = 0 ∧ ilogExact 36 6 = 2 := by decide
